@@ -54,9 +54,20 @@ def gen_items(rng, shape):
 def gen_malformed(rng, shape):
     nd = len(shape)
     items = [gen_axis_item(rng, n) for n in shape]
-    k = rng.randrange(5)
+    k = rng.randrange(7)
     if k == 0:
         items[rng.randrange(nd)] = None
+    elif k == 5:
+        # None *inserted* (np.newaxis style): the tuple becomes longer than the cube has axes
+        items.insert(rng.randint(0, nd), None)
+    elif k == 6:
+        items.insert(rng.randint(0, nd), None)
+        if rng.random() < 0.5:
+            items.append(None)
+        else:
+            items[rng.randrange(len(items))] = "..."
+            if None not in items:
+                items.append(None)
     elif k == 1:
         items = items + [0]
     elif k == 2:
